@@ -325,6 +325,9 @@ func (g *Gen) captures(w string, path []string) bool {
 
 func (g *Gen) props(oneof bool, depth int, path []string, taken map[string]bool, more *[]target) []*Prop {
 	n := g.n(g.Cfg.MaxProps)
+	if oneof && n == 0 {
+		n = 1 // a oneof without options compiles to a descriptor protodesc rejects (C16 territory)
+	}
 	seenSnake := map[string]bool{}
 	seenJSON := map[string]bool{}
 	var props []*Prop
@@ -866,4 +869,69 @@ func (g *Gen) entity() *Entity {
 		e.Query = q
 	}
 	return e
+}
+
+// ---- fresh declarations for append edits (names the base generator never produces)
+
+func (g *Gen) freshScalarProps(n int, tag string) []*Prop {
+	var out []*Prop
+	for i := 0; i < n; i++ {
+		out = append(out, &Prop{Name: fmt.Sprintf("zz%s%d", tag, i), Field: g.scalar()})
+	}
+	return out
+}
+
+// FreshProp returns a new property for an append edit. idx makes the name unique.
+func (g *Gen) FreshProp(oneof bool, idx int) *Prop {
+	name := pick(g, []string{"zzNew", "zz_added_", "zzExtraID"}) + fmt.Sprint(idx)
+	p := &Prop{Name: name}
+	inlObj := func() *Field {
+		return &Field{Kind: FObject, Ref: &TRef{Kind: RInlObj, Props: g.freshScalarProps(g.n(2), "In")}}
+	}
+	if oneof {
+		p.Field = inlObj()
+		return p
+	}
+	switch g.n(7) {
+	case 0:
+		p.Field = inlObj()
+	case 1:
+		p.Field = &Field{Kind: FEnum, Ref: &TRef{Kind: RInlEnum, Opts: []string{"ZZ_A", "ZZ_B"}}}
+	case 2:
+		p.Field = &Field{Kind: FArray, Items: g.scalar()}
+	case 3:
+		p.Field = &Field{Kind: FMap, Items: g.scalar()}
+	case 4:
+		p.Field = &Field{Kind: FArray, Items: inlObj()}
+	default:
+		p.Field = g.scalar()
+	}
+	switch g.n(4) {
+	case 0:
+		p.Req = true
+	case 1:
+		p.Opt = p.Field.Kind != FArray && p.Field.Kind != FMap
+	}
+	return p
+}
+
+// FreshDecl returns a new top-level declaration for an appenddecl edit.
+func (g *Gen) FreshDecl(idx int) *Elem {
+	base := fmt.Sprintf("ZzNew%d", idx)
+	switch g.n(5) {
+	case 0:
+		return &Elem{Kind: KEnum, Enum: &Enum{Name: base + "Enum", Opts: []string{"P", "Q"}}}
+	case 1:
+		return &Elem{Kind: KOneof, Object: &Object{Oneof: true, Name: base + "Choice", Props: []*Prop{g.FreshProp(true, 0)}}}
+	case 2:
+		bp := "/zz/v1"
+		return &Elem{Kind: KService, Service: &Service{Name: base + "Svc", BasePath: &bp, Methods: []*Method{
+			{Name: base + "Call", Verb: pick(g, []string{"get", "post"}), Path: "/call/:zzId", Req: []*Prop{{Name: "zzId", Field: &Field{Kind: FString}}}, HasRes: true, Res: g.freshScalarProps(1, "Res")},
+		}}}
+	case 3:
+		n := base + "Msg"
+		return &Elem{Kind: KTopic, Topic: &Topic{Name: base + "Topic", Kind: "publish", Msgs: []*TMsg{{Name: &n, Props: g.freshScalarProps(2, "T")}}}}
+	default:
+		return &Elem{Kind: KObject, Object: &Object{Name: base + "Object", Props: g.freshScalarProps(1+g.n(2), "F")}}
+	}
 }
